@@ -144,6 +144,19 @@ def check(pm: ProgramModel, ctx: Ctx) -> None:
                       f"the path)", bad=f"{ci.name}: the output depends on the iteration order of a Python "
                       f"set ({nset} set iterations on the path), hence on PYTHONHASHSEED: "
                       f"{_first_diff(a['written'], d['written'])}")
+            # history: a different model with the same feature names, serialised after this one in the
+            # same process, must come out as in a fresh process (no state keyed by names survives)
+            from ..absint import reset_global_state
+            from ..model import twin_model
+            t1 = twin_model(model_for(mb, ci.name))
+            after = run(pm, ci, t1, "asc")
+            reset_global_state()
+            fresh = run(pm, ci, twin_model(model_for(mb, ci.name)), "asc")
+            ctx.check(after["returned"] == fresh["returned"] and after["raise"] == fresh["raise"], "C12-HISTORY",
+                      f"history:{ci.name}", where,
+                      "a second model serialised in the same process gives the output of a fresh process",
+                      bad=f"{ci.name}: the output for a model depends on the model serialised before it in the "
+                          f"same process (state kept across calls): {_first_diff(after['written'], fresh['written'])}")
             # repeated call on the same object graph
             a2 = run(pm, ci, m_asc, "asc")
             ctx.check(a2["returned"] == a["returned"], "C12-REPEAT", f"repeat:{ci.name}", where,
